@@ -55,9 +55,9 @@ CHECKS.update({
    design_ref="DESIGN.md section 2, C04", note="Native calls on x86-64 only; other architectures evaluated on the image.",
    technique="sanitizer build + relocation evaluator monitor + native calls through the address table"),
  "C05": dict(category="exploration",
-   text="Runtime monitoring of the Compiler's register allocator: a seeded generator produces IR programs (all CFG shapes up to 5 body blocks in the thorough tier; loops, jump tables, calls through several signatures, GP/vector/mask values up to ~160 simultaneously live, fixed-register instructions, partial-register and high-byte operands, memory-operand substitution candidates, AVX-512) which are emitted through x86::Compiler (x86-64: executed natively in forked children on 16 inputs each and compared with a reference interpreter that tracks byte-level definedness; x86-32: compiled, decoded with objdump, finalize errors judged) and a64::Compiler (compiled, decoded with llvm-mc; register-list programs checked by symbolic dataflow over the disassembly); the allocator itself runs under ASan+UBSan; fixed probes target each allocator idiom (same-register hints, immediate idioms, reg->mem substitution, consecutive registers, unreachable blocks); failing programs are shrunk.",
+   text="Runtime monitoring of the Compiler's register allocator: a seeded generator produces IR programs (all CFG shapes up to 5 body blocks in the thorough tier; loops, jump tables, calls through several signatures, GP/vector/mask values up to ~160 simultaneously live, fixed-register instructions, partial-register and high-byte operands, memory-operand substitution candidates, AVX-512) which are emitted through x86::Compiler (x86-64 and x86-32: executed natively in forked children on 16 inputs each and compared with a reference interpreter that tracks byte-level definedness) and a64::Compiler (executed on an instruction-word executor against the same interpreter; register-list programs additionally checked by symbolic dataflow over llvm-mc's disassembly); the allocator itself runs under ASan+UBSan; fixed probes target each allocator idiom (same-register hints, immediate idioms, reg->mem substitution, consecutive registers, unreachable blocks); failing programs are shrunk.",
    design_ref="DESIGN.md section 2, C05", note="x86-32 and AArch64 output is never executed (no such CPU here): compile-only plus symbolic list dataflow, stated in the evidence.",
-   technique="native-execution differential monitor (JIT code vs reference interpreter) + sanitizer build + symbolic dataflow over disassembly"),
+   technique="native-execution differential monitor (JIT code vs reference interpreter; AArch64 on an instruction-word executor) + sanitizer build + symbolic dataflow over disassembly"),
  "C06": dict(category="exploration",
    text="Runtime monitoring with compilers as the ABI oracle: generated C probe functions over integer/float/vector/mmx/mask signatures (up to 32 arguments, varargs) are compiled by gcc 12 and clang 14 for every convention (SysV x86-64, ms_abi/Win64, vectorcall, cdecl, stdcall, fastcall, thiscall, regparm1-3, AAPCS64, Apple arm64) and the argument/return locations, callee-pop size, red/spill zones and preserved sets are read from the assembly; FuncDetail/CallConv answers of the ASan+UBSan build are compared with them where the compilers agree (ambiguous signatures: no verdict); native interop on x86-64 (JIT caller <-> compiled callee and the reverse, SysV and ms_abi, light-call pairs) checks values end to end; emit_args_assignment is exercised with generated assignments (permutation cycles, chains, self-moves needing extension, stack<->reg<->stack, scratch exhaustion, conversions) - executed natively on x86-64 and by a byte-level symbolic executor over objdump/llvm-objdump output for x86-32 and AArch64, with a per-case hang watchdog.",
    design_ref="DESIGN.md section 2, C06", note="Windows-only conventions have clang as the single oracle; x86-32 and AArch64 entry sequences are executed symbolically only.",
@@ -97,6 +97,35 @@ CHECKS.update({
 })
 
 NOT_YET = {}
+
+
+# Round 11 (see DESIGN.md section 11): what each check additionally drives and observes, and notes that changed.
+ROUND11 = {
+ "C01": ("Round 11: implicit operands omitted (typed-API shapes), ModMR/ModRM on every prefix class, kLongForm on non-branches, per-case EncodingOptions (branch hints, size optimisation), the address-size x index-type matrix of every memory operand, disp8*N boundaries under every addressing style; accepted cases outside every database form of the mnemonic (immediate past its field, illegal/wrong broadcast) are violations.", None),
+ "C02": ("Round 11: immediates >= 2^32 in every slot, AdvSIMD modified immediates (movi/mvni/orr/bic) with an independent AdvSIMDExpandImm, shape-level negatives (sibling-form shapes, wrong id kind, extra operand, W base, absolute address, index+offset, label+index, stray lane index), one-operand arrangement views, shift limits at every arrangement, every system register name, 22 supplemental Arm-ARM records, operands rebuilt through the public a64operand.h builders; an instruction name without any accepted case makes the run inconclusive.", None),
+ "C03": ("Round 11: emit-time rejections are judged against the form's range, named (global/local/anonymous-with-name) labels, labels bound far beyond the buffer (+-2 GiB and every AArch64 limit in the quick tier), addends at both ends of int32, an intermediate and a repeated flatten/resolve pass, xbegin / hinted jcc / rex jmp,call / bc.cond / prfm literal, 1- and 2-byte embed_label.", "AArch64 and x86-32 are judged statically (no execution)."),
+ "C04": ("Round 11: prefixed/hinted/rex branches to absolute targets (rel8, rel32 and via .addrtab), emit-time rejection of a reachable target is a violation and is compared across the two builds, mem[abs+index], labels and sites in a section ordered behind .addrtab, 1/2-byte embed_label, x86-32 [rip+disp], mod_rm()/mod_mr() accumulator moves.", None),
+ "C05": ("Round 11: x86-32 programs are executed natively through a 64->32 far-call gate and AArch64 programs on an instruction-word executor (about 95 classes from the Arm ARM), both compared with the reference interpreter; callee-saved registers and SP are checked after every return on all three targets; call targets in registers/memory, ms_abi and variadic callees, vector/float arguments, narrower vregs as stack arguments; mulx, cmpxchg8b/16b, blendv(xmm0), rep string ops, maskmovdqu, lahf/sahf, jecxz/loop; a64 cbz/tbz, write-back addressing, ld1-4/st1-4 multi/replicate/lane forms and tbl/tbx inside control flow with calls; three functions per Compiler with shared vregs; kRAAnnotate off in half of the compiles.", "An AArch64 instruction word unknown to the executor makes that program inconclusive (more than 2 % of programs: the run exits 2)."),
+ "C06": ("Round 11: workload D executes call sites symbolically (a Compiler function of convention A invoking a callee of convention B over every platform convention and light-call on x86-64, x86-32, AArch64 Linux/Apple: argument locations at the call, stack alignment, stores confined to the call area, preserved set and live values at ret, one/two return registers); natively: values live across calls, JIT functions calling a helper of the other convention that overwrites every volatile register, targets in registers; natural_stack_alignment and FuncValue type/register type are compared; ambiguous signatures must match one compiler; stack->mask/MMX moves; refusals keyed by feature.", None),
+ "C07": ("Round 11: Compiler-derived frames under register pressure (live count biased to the caller-saved set, loops, fixed-register ops, invokes of weaker conventions): every register written per query_rw_info or clobbered by a callee must be in saved_regs() if the ABI table preserves it (all architectures), and on the host the functions run between sentinel-filled register images with varying SP phase; requested stack-slot alignment vs frame and executed addresses; refusals of finalize/emit_prolog/emit_epilog are violations; entry SP alignment from the ABI table; a64 SP 16-byte rule independent of the promise.", None),
+ "C08": ("Round 11: annotated jumps (JumpNode), kTaken/kNotTaken and REX option bits, labels created by the CodeHolder / another emitter / new_label_node, the Compiler's global constant pool, hand-made nodes of every kind, removal of inactive nodes, full state comparison in front of a refused call, and go-on replays that continue after a refusal.", "Func/invoke nodes are out of reach without functions (C05 covers them); logger text differences are reported without verdict."),
+ "C09": ("Round 11: requested (custom/default) fill pattern vs memory and accessor, requests of 2^31..SIZE_MAX bytes, queries next to live spans, shrink through stale spans, release() of padding/interior/released pointers, overhead_size() against a calibrated linear model, invalid CreateParams -> defaults, dense histories (1500 live spans), /proc/self/maps vs reserved_size(), WriteScope and cache policies.", None),
+ "C10": ("Round 11: section flags and names as attributes (section_by_name), .text virtual sizes, (order,id) ordering, every non-section byte zero under kPadSectionBuffer incl. uncovered gaps (also in dirtied JitRuntime memory), copy before relocation, relocation without summary, sections with null buffers, the JIT span queried and a neighbour allocated after add().", "flatten() and relocate_to_base() are documented to be called once: a second flatten() is a counted observation, a second relocation is not driven."),
+ "C11": ("Round 11: close()/mmap()/munmap() made by libasmjit.a are wrapped and judged (descriptor must be open and not a harness thread's; only own mappings unmapped), sentinel threads own descriptors, threads create/use/destroy private JitAllocator/JitRuntime objects (dual mapping, immediate release) and compare added code with single-threaded bytes, lock-free reader threads, wider emitter slice (validation, InstAPI hashes, a64/x86-32 Builder, const pools, sections, relocations), real shrinks in add() under contention, first use of VirtMem statics raced.", None),
+ "C12": ("Round 11: phys_id / kRegPhysId / kMemPhysId against the database and the assembler, zero-extension claims judged byte by byte, {k}/{k}{z} with plain memory operands, rm_feature against the database ext of the emitted memory form, {vex}/{vex3} queries, kMovOp and kUnique executed oracles, 32-bit mode forms executed through a far-call gate.", None),
+ "C13": ("Round 11: the whole C01 sweep emitted with validation on and off (validation-refuses-encodable), vendored list keyed by (form, instantiation) incl. memory alternative, implicit-omitted shape and lock/xacquire/xrelease/rep/repne capabilities (30205 keys), memory mutations (size class, broadcast, immediate, segment 7), Builder and Compiler (virtual registers) under kValidateIntermediate compared with InstAPI::validate.", None),
+ "C14": ("Round 11: virtual-range register ids and register-home operands, handler on the emitter instead of the holder, emitters detached/reset/destroyed and re-attached, a routing driver over random attachment histories (exactly one call to the right handler, also from finalize()), the x86 Assembler without strict validation, failing lines replayed into a second Builder/Compiler and finalized, invalid align/size/TypeId/repeat arguments on all six emitters, throwing handlers in misuse scripts; AArch64 refusals with armed one-shot state, throwing handlers, probes after failures and a Builder finalize pass.", None),
+ "C15": ("Round 11: callers that continue after a refused call (Assembler/Builder/Compiler call lists and ConstPool) compared with a failure-free reference that omits exactly the refused calls; a 'who reports' oracle; munmap lengths/results and double close/unlink; immediate/by-reference invoke arguments, st0 returns, register lists; Compiler under failing reinit; static-memory arenas; large pages.", None),
+ "C16": ("Round 11: user-set holder/section state (init with CPU features, .text alignment/flags/offset/virtual size), per-function calling convention/AVX/FP settings, attachment list and internal containers in the state snapshot, an arena watch that poisons/quarantines memory retained over a soft reset (ASan use-after-poison on stale pointers), calls on detached emitters, an emitter migrating to a second live holder and back.", "In non-quarantine histories a stale use of arena memory already handed out again is seen through the output only."),
+ "C17": ("Round 11: AdvSIMD modified immediates both directions, SIMD shift/#fbits amounts for 38 mnemonics, orn/eon rows, mov to sp/zr, the assembler's own displacement path with known base (14/19/21-bit exhaustive, 26-bit exhaustive in thorough), load/store offset immediates (scaled/unscaled fallback).", None),
+ "C18": ("Round 11: self-aliased arguments (append/assign/concat/and_/or_/swap with itself), move construction with the source overwritten, impossible sizes (wrap, 2^63, malloc-refused) on Arena/BitSet/String, shards under a 1 MiB allocator limit, growth above 16 MiB, the hash prime table up to index 48, 32-bit bit words and BitOps helpers, small accessor API.", "Models and invariant walkers in drv/drv_containers.cpp are trusted harness code; three API members do not compile when instantiated and cannot be driven."),
+ "C19": ("Round 11: typed new_*_const wrappers of both Compilers (also 32-bit x86), invalid scopes, arena failures anywhere inside _new_const and inside Builder embed_const_pool with re-embed, pools embedded with a logger after a refusal, pools up to 160 KB and in a second section, is_empty() after every hand-out, floors on sharing/gap-reuse/execution counters.", None),
+ "C20": ("Round 11: kExplainImms text against the meaning of the imm8 bits (SDM tables confirmed on the host CPU), logger layouts with indentation/padding/inline comments, a directive stream (bind/align/embed/embed_data_array/embed_label/embed_label_delta/section/comment) whose log lines must denote the appended bytes and the same directives as nodes through format_node, register-home memory, label base with index, rep count register, very long names.", None),
+}
+for _p, (_t, _n) in ROUND11.items():
+    CHECKS[_p]["text"] += " " + _t
+    if _n:
+        CHECKS[_p]["note"] = _n
 
 def main():
     props = [json.loads(l) for l in open(os.path.join(HERE, "properties.jsonl"))]
